@@ -23,7 +23,8 @@ type handle struct {
 // Result of running a program.
 type Result struct {
 	Tokens []string // one per call
-	Bytes  []byte   // bytes of the last successful Build, nil if none
+	Bytes  []byte   // bytes of the last successful Build (a copy), nil if none
+	Raw    []byte   // the slice Build returned (a view into the writer's buffer)
 	Built  bool
 }
 
@@ -260,6 +261,7 @@ func (it *Interp) built(idx int, b []byte, err error) string {
 		return it.errTok(idx, err)
 	}
 	it.res.Bytes = append([]byte(nil), b...)
+	it.res.Raw = b
 	it.res.Built = true
 	return "ok:" + strconv.Itoa(len(b))
 }
